@@ -12,13 +12,13 @@ namespace Litex.Export
 
 /-! ## Exported address = decoded address (32-bit CSR bus, alignment 32) -/
 
-/-- **export_matches_decode.**  For every bank list (`pre ++ bank :: post`), every register list of the bank
+/-- **export_matches_decode_csr32.**  For every bank list (`pre ++ bank :: post`), every register list of the bank
     (`rpre ++ s :: rpost`), every word `j` of register `s`: the address the exporters publish for that word is
     `csr_base + paging·page + 4·index` with `index = Σ nwords(earlier registers) + j` (the flattening index of
     `GenericBank`), and a 32-bit access at that address strobes exactly simple CSR `index` of that bank and nothing
     else.  Hypotheses = the checks the build makes: pages distinct and `< n_locs` (`SoCLocHandler.add`), the bank fits
     its page (`SoC.finalize`). -/
-theorem export_matches_decode
+theorem export_matches_decode_csr32
     (csrBase paging aw page s j : Nat) (pre post : List Bank) (rpre rpost : List Nat)
     (h4 : paging % 4 = 0)
     (hj : j < nwords 32 s)
@@ -101,9 +101,9 @@ theorem export_matches_decode_partial
         = [(pre.length, nsimple busword rpre + j)] := by
   subst hbw
   simp only [hwDecodeWide, hratio, if_true]
-  exact export_matches_decode csrBase paging aw page s j pre post rpre rpost h4 hj hdist hfit hloc
+  exact export_matches_decode_csr32 csrBase paging aw page s j pre post rpre rpost h4 hj hdist hfit hloc
 
-/-- What the build accepts satisfies the hypotheses of `export_matches_decode` for each of its banks. -/
+/-- What the build accepts satisfies the hypotheses of `export_matches_decode_partial` for each of its banks. -/
 theorem accepts_fits (aw paging : Nat) (banks : List Bank) (h : accepts 32 aw paging 32 banks = true)
     (b : Bank) (hb : b ∈ banks) : b.page < nLocs 32 aw paging ∧ nsimple 32 b.regs ≤ paging / 4 := by
   simp only [accepts, Bool.and_eq_true, List.all_eq_true, decide_eq_true_eq] at h
@@ -231,13 +231,6 @@ theorem accessor_roundtrip_big (bw size ct v : Nat) (atomic : Bool) (st : RegSt)
   ⟨accessor_read_big bw size ct v hbw hbw8 hbw32 hs hct hv,
    accessor_write_big bw size ct v atomic st hbw hbw8 hbw32 hs hct hv⟩
 
-/-- A one-word register is written at its only address whatever the ordering. -/
-theorem hwWrite_single (big atomic : Bool) (bw size : Nat) (st : RegSt) (x : Nat) (h : nwords bw size = 1) :
-    hwWrite big atomic bw size st [x] = hwWrite true atomic bw size st [x] := by
-  cases big
-  · simp [hwWrite, hwWriteFrom, wordIdx, h]
-  · rfl
-
 /- Full statement for every ordering (does NOT hold: `accessor_roundtrip_little` is false, witness above):
      theorem accessor_roundtrip : ∀ big, accRead bw ct (hwWords big bw size v) = v ∧ (hwWrite big …).value = v  -/
 /-- **accessor_roundtrip_partial**: the round trips for every ordering outside the known-finding region
@@ -260,13 +253,6 @@ theorem accessor_roundtrip_partial (big : Bool) (bw size ct v : Nat) (atomic : B
     · rw [hw1] at hr ⊢
       rw [hwWrite_single big atomic bw size st _ h1]
       exact hr.2
-
-/-- Single-word registers are not affected by the ordering. -/
-theorem hwWords_single (big : Bool) (bw size v : Nat) (h : nwords bw size = 1) :
-    hwWords big bw size v = hwWords true bw size v := by
-  cases big
-  · simp [hwWords, wordIdx, h]
-  · rfl
 
 /-- **field_extract_exact.**  The generated `<field>_extract` macro returns bits `[offset, offset+size)` of the
     32-bit register word. -/
@@ -310,11 +296,6 @@ example : headerAddrs 0 0 0x800 32 32 [⟨0, [2, 32, 32]⟩, ⟨2, [8, 40, 33, 1
 example : headerAddrs 0x2000 0 0x800 32 32 [⟨3, [8]⟩] ≠ exportAddrs 0 0x800 32 32 [⟨3, [8]⟩] := by decide
 
 /-! ## Memory initialisation images -/
-
-/-- Length of the image: `ceil((base - offset + len)/(4q))` words. -/
-theorem memImage_length (big : Bool) (q baseOff : Nat) (bytes : List Nat) :
-    (memImage big q baseOff bytes).length = (baseOff + bytes.length + 4 * q - 1) / (4 * q) := by
-  simp [memImage]
 
 /-- **mem_image_lanes.**  For every file content (bytes `< 256`), data width `32·q`, endianness and word-aligned
     placement `base - offset = k·4q`: in the image `get_mem_data` produces, the byte a CPU of that endianness reads
